@@ -9,20 +9,20 @@
 (* collide.  The probe loops of find_file_entry and add_to_hash_table are explicit micro-steps     *)
 (* (one slot examined per step) so that their termination is a checked property.                   *)
 (*                                                                                                 *)
-(* The module describes three machines over the same state:                                        *)
+(* The module describes the design and three historical states of the implementation over the same *)
+(* state; every former behaviour is a named alternative action that TLC refutes (MC_*_code?.cfg):  *)
 (*   DesignSteps/DesignSyncs  the intended design                                                  *)
-(*   CodeSteps/CodeSyncs      the implementation AS IT IS NOW: the design with its remaining       *)
-(*                            deviations as named alternative actions                              *)
+(*   CodeSteps/CodeSyncs      the implementation AS IT IS NOW = the design, plus the legitimate    *)
+(*                            refusal of compact() where a live file has no listed name            *)
+(*   Code1Steps/Code1Syncs    the implementation at b13f4b7 (before f5f1b52 8390629 6cf538f        *)
+(*                            9c6ca29 22716d7 c152f3f):                                            *)
 (*        WriteTablesV3Broken      V3/V4: placeholder HET/BET at the cursor, header only updated   *)
 (*                                 when the block count changed                          F-C06-c   *)
 (*        InsertRenameKeepsOldKey  rename_file leaves encrypted data under the old name's key      *)
-(*        InsertAddSubstr / LFAddSubstr  update_listfile tests `content.contains(name)`: a name    *)
-(*                                 that is a SUBSTRING of a listed one is not added to (listfile)  *)
-(*        CompactRefuseUnreadable  compact() names files through the (listfile): without one, or   *)
-(*                                 for a name missing from it, or for a file that fails to decode, *)
-(*                                 it returns an error (2d95992; before: the file was dropped)     *)
-(*   Code0Steps/Code0Syncs    the implementation before the fix commits 20d617c c4da446 5040b10    *)
-(*                            a3b171c (kept so that TLC keeps refuting the old behaviour):         *)
+(*        InsertAddSubstr / LFAddSubstr  update_listfile tests `content.contains(name)`            *)
+(*        SessionReadStale         read_file inside the session answered by the stale Archive      *)
+(*        CompactRefuseUnreadable  refusal also for the victims of the deviations above            *)
+(*   Code0Steps/Code0Syncs    the implementation before any fix (9124e75):                         *)
 (*        InsertSpin (F-C06-b), WriteTablesInPlace (F-C06-a), CompactStale (F-C06-d),              *)
 (*        AddAppendFixKeyWrongKey (F-C06-e), AddAppendNoCheck                                      *)
 (* `devs` records which deviation changed the outcome of the behaviour so far.  Gen_MpqHashTable   *)
@@ -436,13 +436,26 @@ CommonSteps == \/ FindStep \/ AddRefuseExists \/ InsertAdvance
                \/ RenameRefuseSrc \/ RenameSrcFound \/ RenameRefuseDst \/ RenameMark
 DesignSteps == CommonSteps \/ AddRefuseFull \/ AddAppend \/ InsertAdd \/ InsertRenameReencrypt \/ InsertGiveUp
 DesignSyncs == Open \/ FlushClean \/ CloseClean \/ FlushRelocate \/ CloseRelocate \/ CompactDesigned \/ CompactRefuse
-\* as coded now
+\* as coded now (f5f1b52 8390629 6cf538f 9c6ca29 22716d7 c152f3f on top of the round-1 fixes): every call follows
+\* the design; compact() refuses (and changes nothing but the flush it starts with) where a live file has no
+\* listed name
+CompactNow == Unnamed = {} /\ Undecodable = {} /\ CompactTo(SessView, 0) /\ UNCHANGED devs
+CompactRefuseNow ==
+    /\ (Unnamed # {} \/ Undecodable # {})
+    /\ wopen /\ pc = "idle" /\ NewCall
+    /\ IF wdirty THEN WriteTablesRelocate ELSE UNCHANGED <<ddisk, hcursor, devs>>
+    /\ wdirty' = FALSE /\ stale' = ListedNow /\ staleMap' = SessView
+    /\ hsnap' = SessView /\ Finish("refused")
+    /\ UNCHANGED <<hslots, hblocks, wopen, vlf>>
+CodeSteps   == DesignSteps
+CodeSyncs   == Open \/ FlushClean \/ CloseClean \/ FlushRelocate \/ CloseRelocate \/ CompactNow \/ CompactRefuseNow
+\* as coded at b13f4b7 (after the round-1 fixes, before the six round-2 fix commits)
 FlushRelocateV12 == Ver < 3 /\ FlushRelocate
 CloseRelocateV12 == Ver < 3 /\ CloseRelocate
-CodeSteps   == CommonSteps \/ AddRefuseFull \/ AddAppend \/ InsertAddSubstr \/ InsertRenameKeepsOldKey \/ InsertGiveUp
-CodeSyncs   == Open \/ FlushClean \/ CloseClean \/ FlushRelocateV12 \/ CloseRelocateV12 \/ FlushV3Broken \/ CloseV3Broken
+Code1Steps  == CommonSteps \/ AddRefuseFull \/ AddAppend \/ InsertAddSubstr \/ InsertRenameKeepsOldKey \/ InsertGiveUp
+Code1Syncs  == Open \/ FlushClean \/ CloseClean \/ FlushRelocateV12 \/ CloseRelocateV12 \/ FlushV3Broken \/ CloseV3Broken
                \/ CompactFresh \/ CompactRefuseUnreadable \/ CompactV3
-\* as coded before the fix commits
+\* as coded before any fix commit
 Code0Steps  == CommonSteps \/ AddAppendNoCheck \/ AddAppendFixKeyWrongKey \/ InsertAddSubstr \/ InsertRenameKeepsOldKey \/ InsertSpin
 Code0Syncs  == Open \/ FlushClean \/ CloseClean \/ FlushInPlace \/ CloseInPlace \/ FlushV3Broken \/ CloseV3Broken \/ CompactStale
 
@@ -461,6 +474,8 @@ ProbeBounded == pcnt < H
 TablesDisjointFromData == ddisk.ok => (Overrun(ddisk.tpos, ddisk.blocks) \cap LiveBlocks(ddisk.slots) = {})
 NoDamage == ddisk.dmg \cap LiveBlocks(ddisk.slots) = {}
 \* the listfile, where present, names exactly the live user files (D-level fact; holds in the design)
+\* read_file inside the session shows the session's view (refuted for the stale-Archive reading of Code1)
+SessionReadStaleAgrees == (pc = "idle" /\ wopen) => \A n \in UNames : SessionReadStale(n) = SessView[n]
 ListfileExact == (pc = "idle" /\ vlf /\ SlotOf(hslots, LF) # {}) =>
                      LFContent(hslots, hblocks) \cap UNames = {n \in UNames : SlotOf(hslots, n) # {}}
 =============================================================================
